@@ -1223,7 +1223,13 @@ def self_emit_fn(em, res, u, rw, qual, sig, body, orig, rel, self_subst, mode, d
                     continue
                 em.add(indent + "        " + kind)
                 for c in ks:
-                    a, b = em.add(_indent(c.text, indent + "            ") + ",")
+                    ctext = c.text
+                    mu = re.match(r"\s*@uses\((\w+)\)\s*", ctext)
+                    if mu:
+                        # an invariant about a local the function may not have (e.g. the tree before a repair): without the
+                        # local the clause degenerates to `true`, so the loss shows up as the failing postcondition, not as a compile error
+                        ctext = ctext[mu.end():] if re.search(r"\b%s\b" % re.escape(mu.group(1)), new_body) else "true"
+                    a, b = em.add(_indent(ctext, indent + "            ") + ",")
                     res.clause_lines.append((a, b, qual, "loop%d_%s" % (k, c.label), kind))
             for c in lcls:
                 if c.kind == "decreases":
